@@ -14,6 +14,11 @@ Definition payloader_of (code : Z) : Z -> list Z -> list (list Z) :=
     if code =? 0 then frags_of (g711_payload mtu (Some p))
     else if code =? 1 then frags_of (g722_payload mtu (Some p))
     else if code =? 2 then frags_of (opus_payload mtu (Some p))
+    else if code =? 4 then   (* the harness's gate payloader: nothing for a first byte below 128 *)
+      match p with
+      | b :: _ => if b <? 128 then [] else frags_of (g711_payload mtu (Some p))
+      | [] => []
+      end
     else match vp8_payload (mkVp8Pay false 0) mtu (Some p) with
          | Ok (_, fs) => map (resolve (fun _ => [])) fs
          | _ => []
